@@ -16,6 +16,7 @@ package sim
 // nothing.
 
 import (
+	"bytes"
 	"fmt"
 	"os"
 	"path/filepath"
@@ -334,6 +335,22 @@ func c05Recover(w *World, h *Hist, f *c05Fork, idx int, mainKey *KeyPair) {
 		reg.Signature = glow.Sign(RegistrationSigningBytes(h.GCA.Pub), h.N.Temp.Priv)
 		model.Register(h.GCA.Pub, reg.Signature)
 		w.Probe("c05.register-after-crash")
+		// ... and the answer must be the truth: the key is in place (in memory
+		// and in its file), and the new owner can authorize a device.
+		if err := model.CompareSnap(n.Snap()); err != nil {
+			w.Fail("C05.register", f.site, "crash at %s: the registration on the recovered server was answered with 200 but did not take effect: %v", f.site, err)
+		}
+		if raw := n.ReadFile("gcaPubKey.dat"); !bytes.Equal(raw, h.GCA.Pub[:]) {
+			w.Fail("C05.register", f.site, "crash at %s: after the registration on the recovered server gcaPubKey.dat holds %d bytes that are not the registered key", f.site, len(raw))
+		}
+		fresh := StdAuth(h.GCA, 900+uint32(idx%50), Key(fmt.Sprintf("after-crash%d", idx%50)), 1000)
+		if res := n.PostJSON("/api/v1/authorize-equipment", fresh); res.Status != 200 {
+			w.Fail("C05.register", f.site, "crash at %s: the GCA registered on the recovered server cannot authorize a device: %d %s", f.site, res.Status, trim(res.Body))
+		}
+		model.Authorize(fresh)
+		if err := model.CompareSnap(n.Snap()); err != nil {
+			w.Fail("C05.register", f.site, "crash at %s: after registration and a first authorization on the recovered server: %v", f.site, err)
+		}
 	}
 	// A second restart is idempotent.
 	before := n.Snap()
